@@ -49,7 +49,7 @@ inductive H where
 inductive Z where
   | bconst (b : Bool) | ilit (n : Int) | rlit (q : Rat)
   | const (x : String) (s : Srt)
-  | bv (i : Nat)
+  | bv (i : Nat) (s : Srt)              -- bound variable (de Bruijn index) of sort s
   | not (a : Z) | and (a b : Z) | or (a b : Z) | imp (a b : Z)
   | eq (a b : Z) | ite (c a b : Z)
   | add (a b : Z) | sub (a b : Z) | mul (a b : Z) | div (a b : Z) | neg (a : Z)
@@ -105,19 +105,19 @@ def R.toZ : R → Z
 inductive Cls where | ratnum | arith | quant | boolc | other
   deriving DecidableEq
 
+def Srt.cls : Srt → Cls
+  | .bool => .boolc | .int | .real => .arith | .u _ => .other
+
 def Z.cls : Z → Cls
   | .rlit _ => .ratnum
   | .all .. | .ex .. => .quant
   | .bconst _ | .not _ | .and .. | .or .. | .imp .. | .eq .. | .le .. | .lt .. | .ge .. | .gt .. => .boolc
   | .ilit _ | .add .. | .sub .. | .mul .. | .div .. | .neg _ | .toReal _ => .arith
-  | .const _ s | .app _ _ s _ => match s with | .bool => .boolc | .int | .real => .arith | .u _ => .other
-  | .ite _ a _ => match a with
-      | .rlit _ | .ilit _ | .add .. | .sub .. | .mul .. | .div .. | .neg _ | .toReal _ => .arith
-      | .const _ s | .app _ _ s _ => (match s with | .bool => .boolc | .int | .real => .arith | .u _ => .other)
-      | .bv _ => .other
-      | .ite .. => .arith
-      | _ => .boolc
-  | .bv _ => .other
+  | .const _ s | .app _ _ s _ | .bv _ s => s.cls
+  | .ite _ a _ => match a.cls with
+      | .ratnum => .arith      -- an application, not a numeral
+      | .quant => .boolc
+      | c => c
 
 /-- Python tries the reflected comparison method first when the right operand's class is a proper
 subclass of the left operand's class (RatNumRef < ArithRef, QuantifierRef < BoolRef). -/
@@ -212,7 +212,7 @@ def conv (env : List (String × Ty)) : H → M R
           -- the bound variable was replaced by Var(nm, T): same bookkeeping as for a free one,
           -- the assumption is about the *free* constant nm
           noteNat nm T (.const nm T.srt)
-          pure (.z (.bv i))
+          pure (.z (.bv i T.srt))
       | none => failM .crash
   | .num T q => pure (if T == .real then .z (.rlit q) else .pi q.num)
   | .tt => pure (.z (.bconst true))
@@ -250,7 +250,7 @@ def conv (env : List (String × Ty)) : H → M R
       let b' ← conv ((nm, T) :: env) b
       if T == .nat then
         let z ← liftE (boolArg b')
-        pure (.z (.all nm T.srt (.imp (.ge (.bv 0) (.ilit 0)) z)))
+        pure (.z (.all nm T.srt (.imp (.ge (.bv 0 .int) (.ilit 0)) z)))
       else match b' with
         | .z e => pure (.z (.all nm T.srt e))
         | _ => failM .crash
@@ -259,7 +259,7 @@ def conv (env : List (String × Ty)) : H → M R
       let b' ← conv ((nm, T) :: env) b
       if T == .nat then
         let z ← liftE (boolArg b')
-        pure (.z (.ex nm T.srt (.and (.ge (.bv 0) (.ilit 0)) z)))
+        pure (.z (.ex nm T.srt (.and (.ge (.bv 0 .int) (.ilit 0)) z)))
       else match b' with
         | .z e => pure (.z (.ex nm T.srt e))
         | _ => failM .crash
@@ -512,7 +512,7 @@ def evalZ (div0 : K → K) (σ : String → Val K) (F : String → Val K → Val
   | _, .ilit n => .i n
   | _, .rlit q => .r (N.ofRat q)
   | _, .const x _ => σ x
-  | ρ, .bv i => ρ.getD i (.b false)
+  | ρ, .bv i _ => ρ.getD i (.b false)
   | ρ, .not a => vnot (evalZ div0 σ F ρ a)
   | ρ, .and a b => vand (evalZ div0 σ F ρ a) (evalZ div0 σ F ρ b)
   | ρ, .or a b => vor (evalZ div0 σ F ρ a) (evalZ div0 σ F ρ b)
